@@ -17,8 +17,8 @@ MANIFEST = {
              'its column), C09_blocks_append, C09_blocks_column_read, C09_hier_append; unconditional C09_index_labels_never_lost, '
              'C09_index_append_atomic, C09_hier_append_rejected; never shared: C09_never_shared and C09_growth_isolated over every interleaving of '
              'growth with to_frame/to_frame_go/to_frame_he/Frame(f)/FrameGO(f)/FrameHE(f), stated over decision tables REGENERATED from the AST of '
-             'frame.py/container_util.py/index.py/type_blocks.py on every run (C09_index_filters_copy_across_the_boundary). Refuted/C09.v: four '
-             'witnesses that the guards are necessary (the known findings; two more, IndexLevelGO.append misplacing a key and the loc_is_iloc append of 1.0, were repaired by fixes 5320f59 / feb832d: C09_hier_append and C09_index_append_refines now hold without a guard). Correspondence: recorded histories of the real containers (valid, '
+             'frame.py/container_util.py/index.py/type_blocks.py on every run (C09_index_filters_copy_across_the_boundary). Refuted/C09.v: two '
+             'witnesses that the guards are necessary (extend_items; extend with a non-int label equal to a held position on a loc_is_iloc index). Repaired while this check was built and now proved without a guard: 5320f59 C09_hier_append, feb832d C09_index_append_refines, c675c22 C09_index_refines_with_map / C09_index_extend_atomic / C09_frame_extend_frame_atomic, 4b2944d C09_hier_extend(_rejected); 636db1e union()/intersection() (regression in the sharing stratum). Correspondence: recorded histories of the real containers (valid, '
              'duplicate, partially duplicate, wrong length, 2-D, unaligned index, wrong depth) replayed through M and S inside Coq after every '
              'step; object identity of _columns/_blocks between all live frames compared with the world model; ~100 public derivations x 13 '
              'sources grown in both directions with every other live container re-read and mutable members compared by identity.'),
@@ -49,10 +49,10 @@ ASSUMPTIONS = ['labels are compared with Python == (1 == 1.0 == True); NaN label
 TRUSTED = ['tools/sfv/props/c09.py:generate -- AST pattern extractor for the sharing decision tables (fails closed on any other shape)']
 EXHAUSTIVE = {'quick': False, 'thorough': False}
 TRANSLATED = ['resolve_dtype']
+GENERATED_FILES = ['Gen/Gen_c09.v']
 SHARD_SIZE = 200          # histories are long terms: ~350 MB per coqc at this size
 
-F_IDX_EXT = 'C09-indexgo-extend-partial'
-F_FRM_EXT = 'C09-framego-extend-partial'
+F_AUTO_EXT = 'C09-autoindex-extend-nonint-equal-label'
 F_ITEMS = 'C09-framego-extend-items-partial'
 F_AUTO = 'C09-autoindex-nonint-equal-label'
 
@@ -145,6 +145,29 @@ def _j(v):
     return v
 
 
+def _extend_class(cur, is_auto, vs):
+    """What extend(vs) does to an index holding `cur`, by construction of the input (fix c675c22: validation
+    first).  Returns (finding or None, labels appended, still_auto)."""
+    def intlike(v):
+        return isinstance(v, (int, np.integer))
+    observed = []
+    for v in vs:                                           # validation pass: __contains__ and `observed`
+        held = (intlike(v) and 0 <= v < len(cur)) if is_auto else _in(v, cur)
+        if held or _in(v, observed):
+            return None, [], is_auto                       # rejected as a whole
+        observed.append(v)
+    added = []
+    for k, v in enumerate(vs):                             # append loop
+        now = cur + added
+        if _in(v, now):
+            # only reachable on an auto index: a non-int label equal to a held position
+            return (F_AUTO_EXT if k > 0 else None), added, is_auto
+        if is_auto and not (intlike(v) and v == len(now)):
+            is_auto = False
+        added.append(v)
+    return None, added, is_auto
+
+
 def classify_index_ops(auto, labels, ops):
     '''Finding class of a history BY CONSTRUCTION of its inputs (the first one met), tracking only what the
     generator knows: the labels given so far and whether the index still is a pure 0..n-1 auto index.'''
@@ -153,22 +176,17 @@ def classify_index_ops(auto, labels, ops):
     for op in ops:
         if op[0] == 'read':
             continue
-        vs = [op[1]] if op[0] == 'append' else list(op[1])
-        added = []
-        rejected = False
-        for k, v in enumerate(vs):
-            intlike = isinstance(v, (int, np.integer))      # bool is an int
-            now = cur + added
-            if _in(v, now):
-                if k > 0:
-                    return F_IDX_EXT
-                rejected = True                               # rejected at the first label: nothing appended
-                break
-            if is_auto and not (intlike and v == len(now)):
-                is_auto = False
-            added.append(v)
-        if not rejected:
-            cur += added
+        if op[0] == 'append':
+            v = op[1]
+            if not _in(v, cur):
+                if is_auto and not (isinstance(v, (int, np.integer)) and v == len(cur)):
+                    is_auto = False
+                cur.append(v)
+            continue
+        f, added, is_auto = _extend_class(cur, is_auto, list(op[1]))
+        if f:
+            return f
+        cur += added
     return None
 
 
@@ -274,6 +292,7 @@ CORPUS_INDEX = [
     # (auto, labels, ops): minimal replays of the known findings
     (False, ['a', 'b'], [('extend', ['c', 'a', 'd']), ('read',), ('append', 'e')]),
     (False, ['a', 'b'], [('extend', ['c', 'c'])]),
+    (True, [0, 1, 2], [('extend', [5, 1.0]), ('read',)]),
     (True, [0, 1, 2], [('append', 1.0), ('append', 3), ('read',)]),
 ]
 
@@ -525,33 +544,36 @@ def classify_frame_ops(init, ops):
     cur = list(range(len(init['cols']))) if auto else list(init['labels'])
     is_auto = auto
     nrows = len(init['rows'])
+
+    def one(v):
+        nonlocal is_auto
+        if is_auto and not (isinstance(v, (int, np.integer)) and v == len(cur)):
+            is_auto = False
+        cur.append(v)
     for op in ops:
         kind = op['op']
         if kind in ('read', 'ext_other'):
             continue
         if kind == 'set':
-            seq, partial = [(op['key'], _value_valid(op['value'], nrows))], None
-        elif kind == 'items':
-            seq, partial = [(k, _value_valid(v, nrows)) for k, v in op['pairs']], F_ITEMS
+            if _value_valid(op['value'], nrows) and not _in(op['key'], cur):
+                one(op['key'])
         elif kind == 'ext_series':
-            seq, partial = [(op['name'], True)], None
+            if not _in(op['name'], cur):
+                one(op['name'])
+        elif kind == 'items':
+            for k, (key, v) in enumerate(op['pairs']):
+                if _in(key, cur) or not _value_valid(v, nrows):
+                    if k > 0:
+                        return F_ITEMS
+                    break
+                one(key)
         else:
-            seq, partial = [(k, True) for k in _as_index_labels(op['fcols'])], F_FRM_EXT
-        added = []
-        rejected = False
-        for k, (v, valid) in enumerate(seq):
-            intlike = isinstance(v, (int, np.integer))
-            now = cur + added
-            dup = _in(v, now)
-            if dup or not valid:
-                if k > 0:
-                    return partial
-                rejected = True
-                break
-            if is_auto and not (intlike and v == len(now)):
-                is_auto = False
-            added.append(v)
-        if not rejected:
+            fcols = _as_index_labels(op['fcols'])
+            if not fcols:
+                continue
+            f, added, is_auto = _extend_class(cur, is_auto, fcols)
+            if f:
+                return f
             cur += added
     return None
 
@@ -1347,8 +1369,6 @@ def sharing_cases(ctx):
                     base = dname.replace('auto:', '')
                     if base in ('columns-property', 'columns', 'keys') and src_name.startswith('FrameGO'):
                         tags['finding'] = F_COLPROP
-                    if dname in ('auto:union', 'auto:intersection') and family == 'index' and 'GO' in src_name:
-                        tags['finding'] = F_SETOP
                     desc = {'source': src_name, 'derivation': dname, 'steps': steps, 'problems': problems[:4]}
                     emitted += 1
                     yield Case('api:sharing-' + family, desc, py_fail='; '.join(problems[:3]) if problems else None,
@@ -1434,47 +1454,7 @@ def hier_history(labels, depth, ops, look, model=True):
 
 
 def classify_hier_ops(labels, depth, ops):
-    """Finding class BY CONSTRUCTION (first met), from the labels given so far."""
-    cur = [tuple(x) for x in labels]
-    for op in ops:
-        if op[0] == 'read':
-            continue
-        if op[0] == 'append':
-            key = tuple(op[1])
-            if len(key) != depth:
-                continue
-            if cur:
-                last = cur[-1]
-                d = next((i for i in range(depth) if key[i] != last[i]), None)
-                if d is not None and d < depth - 1:
-                    siblings = {l[d] for l in cur if l[:d] == last[:d]}
-                    if key[d] in siblings:
-                        continue                    # found in the node on the last edge but not its last label: rejected since fix 5320f59
-            if key not in cur:
-                cur.append(key)
-            continue
-        other = [tuple(x) for x in op[1]]
-        odepth = depth if len(op) < 3 else op[2]
-        if not other or odepth != depth:
-            continue
-        if not cur:
-            return F_HIER_EMPTY
-        outer, seen = [], set()
-        for l in other:
-            if l[0] not in seen:
-                seen.add(l[0])
-                outer.append(l[0])
-        root = []
-        for l in cur:
-            if l[0] not in root:
-                root.append(l[0])
-        for k, o in enumerate(outer):
-            if o in root:
-                if k > 0:
-                    return F_HIER_EXT
-                break
-        else:
-            cur.extend(other)
+    """No finding class is left for IndexHierarchyGO (fixes 5320f59, 4b2944d, c675c22)."""
     return None
 
 
@@ -1482,7 +1462,7 @@ CORPUS_HIER = [
     ([('a', 1), ('b', 1)], 2, [('append', ('a', 2)), ('read',)], True),
     ([('a', 1, 'x'), ('b', 1, 'y'), ('c', 1, 'x')], 3, [('append', ('b', 1, 'y'))], True),
     ([('a', 1), ('b', 1)], 2, [('extend', [('c', 1), ('b', 2)]), ('append', ('c', 5)), ('read',)], True),
-    ([], 2, [('extend', [('a', 1), ('a', 2)])], False),
+    ([], 2, [('extend', [('a', 1), ('a', 2)]), ('append', ('a', 1)), ('read',)], True),
 ]
 
 
@@ -1562,14 +1542,12 @@ def hier_random(ctx, count):
                     cur.append(key)
             else:
                 c = rng.random()
-                if not cur:
-                    continue                                  # extend on an empty hierarchy: finding class, corpus only
                 if c < 0.6 and free:
                     k = rng.randint(1, min(2, len(free)))
                     other = rand_tree(free[:k])
                     ops.append(('extend', other, depth, rng.random() < 0.4))
                     cur.extend(other)
-                elif c < 0.8:
+                elif c < 0.8 and used:
                     other = rand_tree([used[0]] + free[:1])        # rejected at the first outer label
                     ops.append(('extend', other))
                 else:
